@@ -2,6 +2,7 @@
 import time
 import os, sys, json, time, random, re, collections, itertools
 import vlib, streams
+import pstreams3 as P3
 from vlib import log, enc, dec, ORACLE
 
 TRUSTED_BASE_COMMON = [
@@ -154,7 +155,7 @@ def lex_property_check(src, res):
 
 
 def stream_lex(ctx):
-    cases = streams.lex_cases(ctx.rng, ctx.tier)
+    cases = streams.lex_cases(ctx.rng, ctx.tier) + [(s_, 'corpus2') for s_ in P3.LEX_CORPUS]
     fname = 't.pakhi'
     mk = lambda s: 'lex %s %s' % (enc(fname), enc(s))
     lines = [mk(s) for s, _ in cases]
@@ -194,7 +195,7 @@ def stream_lex(ctx):
 def _registry():
     S = simple_stream
     return {
-    'C01': {'proofs': 'C01', 'streams': [stream_expr],
+    'C01': {'proofs': 'C01', 'streams': [stream_expr, S('expr-temporaries', lambda rng, tier: P3.temporaries_programs(rng, 4 if tier != 'thorough' else 30), flags='-', shrink=False)],
             'rule': 'expr stream: typed random operator trees (all 13 binary and 2 unary operators, calls, lists, records, nil) rendered with minimal, random-extra and whole-expression parentheses; 20% with ill-typed operands; non-trivial = every distinct program',
             'assumptions': ['operand evaluation order is modelled but not part of the statement (calls are to pure functions)', 'hardware floating point is tied to SpecFloat by the f64 stream only']},
     'C02': {'proofs': 'C02', 'streams': [stream_chains],
@@ -493,8 +494,9 @@ def stream_gc_schedules(ctx):
     cases = []
     for p in progs:
         ss = scheds[:2] + ctx.rng.sample(scheds[2:], 2) + [''.join(ctx.rng.choice('01') for _ in range(ctx.rng.randint(3, 12))) for _ in range(extra)] + ['n']
+        if p.get('scheds'): ss = p['scheds']
         for s in ss:
-            cases.append(dict(p, sched=s, flags='h', group=id(p), budget=3000))
+            cases.append(dict(p, sched=s, flags='h', group=id(p), budget=max(3000, p.get('budget', 0))))
     impl, model = diff_programs(ctx, 'gc-schedules', cases, shrink=False)
     groups = collections.defaultdict(list)
     for c, a in zip(cases, impl): groups[c['group']].append((c, out_of(a)))
@@ -541,7 +543,7 @@ def stream_alloc_loops(ctx):
         small, big = rows[0], rows[-1]
         # heap size must not grow with the number of iterations: allow the arena of the longest run to exceed the
         # shortest one's only by a constant (one collection period)
-        bound = 2100
+        bound = 2100 + big[2].get('live', 0)
         if big[1]['lists'] > bound or big[1]['recs'] > bound or big[1]['lists'] > small[1]['lists'] + 1100 or big[1]['recs'] > small[1]['recs'] + 1100:
             ctx.failing.append({'stream': 'alloc-loops-bound', 'why': 'arena size grows with the number of iterations (route %s: %r)' % (route, table[route]),
                                 'source': big[2]['src'], 'case_line': case_line(big[2]), 'implementation': str(big[1])})
@@ -588,6 +590,12 @@ def c17_check(c, a):
         if texts[-1] != c['s']: return 'joining the fields of a split does not return the original string'
         want = c['s'].split(c['sep'])
         if texts[-2] != genprog.bn(len(want)): return 'split yields %s fields, the string has %d separator-delimited fields' % (texts[-2], len(want))
+    if c.get('kind') == 'split-eol' and end == ('ok',):
+        # prints: the count, whether join(split(s, sep), sep) == s, the fields joined by |, a count
+        want = c['s'].split(c['sep'])
+        if texts[0] != genprog.bn(len(want)): return 'split yields %s fields, the string has %d separator-delimited fields' % (texts[0], len(want))
+        if texts[1] != 'সত্য': return 'joining the fields of a split does not return the original string'
+        if texts[2] != '|'.join(want): return 'the fields of the split are not the text between the separators'
     if c.get('kind') == 'split' and end == ('ok',) and c['sep'] == '':
         if texts[-2] != genprog.bn(len(c['s'])): return 'splitting by the empty string does not yield the characters'
     if c.get('kind') == 'join' and end == ('ok',) and c['sep'] != '' and c['list'] and all(c['sep'] not in x for x in c['list']):
@@ -730,7 +738,7 @@ def with_comments(rng, stmts):
     out = []
     for s in stmts:
         if rng.random() < 0.3 and s not in (['{'],) :
-            out.append([rng.choice(['# মন্তব্য #', '#\nবহু লাইন\nমন্তব্য\n#', '# এতে \\# আছে #', '##', '# দেখাও ১; #', '# পথ C:\\\\# দেখাও "ভিতরে"; #', '#\\\n#', '# a\\b #'])])
+            out.append([rng.choice(['# মন্তব্য #', '#\nবহু লাইন\nমন্তব্য\n#', '# এতে \\# আছে #', '##', '# দেখাও ১; #', '# পথ C:\\\\# দেখাও "ভিতরে"; #', '#\\\n#', '# a\\b #'] + P3.COMMENTS)])
         out.append(s)
     return out
 
@@ -754,6 +762,8 @@ def stream_layout(ctx):
         stc = with_comments(ctx.rng, st)
         # comments go between statements: keep separators around them
         variants.append(('comments', '\n'.join(' '.join(s) for s in stc) + '\n'))
+        stc2 = with_comments(ctx.rng, st)
+        variants.append(('comments', ''.join(' '.join(s) + ctx.rng.choice([' ', ' ', '\n', '\t', '  ']) for s in stc2) + '\n'))
         for mode, src in variants:
             cases.append({'src': src, 'kind': 'layout-' + mode, 'group': gi})
     # comments at the statement boundaries of an imported module and around the import statement
@@ -833,6 +843,7 @@ def stream_parse(ctx):
         toks = f.split(' ')
         for k in range(len(toks) + 1): srcs.append((' '.join(toks[:k]), 'truncated-form'))
         for k in range(len(toks)): srcs.append((' '.join(toks[:k] + toks[k + 1:]), 'form-minus-one'))
+    srcs += P3.parse_sources()
     lines = [parse_line(s) for s, _ in srcs]
     # imports: alias spellings, comments around the splice point, failures
     modsrc = 'নাম মান = ৯;\nফাং দেখ() {\n    ফেরত মান;\n} ফেরত;\n'
@@ -860,8 +871,23 @@ def stream_parse(ctx):
     ctx.evaluations += len(srcs); ctx.validated += len(srcs); ctx.nontrivial += len(set(s for s, _ in srcs if len(s) > 3))
     ctx.streams.append({'stream': 'parse', 'cases': len(srcs), 'origins': dict(origins), 'implementation_result_kinds': dict(kinds)})
     ctx.samples.append({'stream': 'parse', 'source': srcs[len(srcs) // 2][0][:300], 'implementation': impl[len(srcs) // 2][:300]})
+    # statements too wide for the model's parser: implementation alone (documented forms are accepted, malformed input is an error value)
+    big = P3.parse_sources_impl_only()
+    big_lines = [parse_line(s) for s, _ in big]
+    big_impl = vlib.run_sharded(ORACLE, big_lines, 'parsebig')
+    for (s, o), l, a in zip(big, big_lines, big_impl):
+        why = None
+        if a in ('panic', 'hang') or a.startswith('crash') or a.startswith('driver'): why = 'parser did not return a value: ' + a
+        elif o.startswith('wide') and not a.startswith('ok'): why = 'a statement composed of documented forms was rejected: ' + a[:80]
+        elif o.startswith('long') and a.startswith('ok') and not s.startswith('# '): why = None
+        if why: bad.append((s, l, a, '(model not consulted)', why))
+    ctx.evaluations += len(big); ctx.validated += len(big)
+    ctx.streams.append({'stream': 'parse-large', 'cases': len(big), 'rule': 'implementation only: statements of 998-4000 sub-expressions of each bracketed form, malformed statements with lexemes of 8-16 KiB'})
     bad.sort(key=lambda x: len(x[0]))
     for s, l, a, b, why in bad[:2]:
+        if b == '(model not consulted)':
+            ctx.failing.append({'stream': 'parse-large', 'why': why, 'source': s[:3000], 'case_line': l[:200], 'implementation': a[:1500], 'others': len(bad)})
+            continue
         def still(cands):
             ls = [parse_line(c) for c in cands]
             ii, mm = oracle_and_model(ctx, ls, 'shr')
@@ -932,9 +958,10 @@ def stream_compose(ctx):
     cases = []
     for r in raw:
         bud = r.get('budget', 8000)
-        cases.append({'src': r['p1'], 'kind': 'p1', 'g': id(r), 'budget': bud})
-        cases.append({'src': r['p2'], 'kind': 'p2', 'g': id(r), 'budget': bud})
-        cases.append({'src': r['p1'] + r['p2'], 'kind': 'p1p2', 'g': id(r), 'shift': r['p1'].count('\n'), 'budget': bud})
+        sc = r.get('sched', 'n')
+        cases.append({'src': r['p1'], 'kind': 'p1', 'g': id(r), 'budget': bud, 'sched': sc})
+        cases.append({'src': r['p2'], 'kind': 'p2', 'g': id(r), 'budget': bud, 'sched': sc})
+        cases.append({'src': r['p1'] + r['p2'], 'kind': 'p1p2', 'g': id(r), 'shift': r['p1'].count('\n'), 'budget': bud, 'sched': sc})
     impl, model = diff_programs(ctx, 'compose', cases, flags='-', shrink=False)
     for i in range(0, len(cases), 3):
         o1, e1 = ends_of(impl[i]); o2, e2 = ends_of(impl[i + 1]); o12, e12 = ends_of(impl[i + 2])
